@@ -302,6 +302,8 @@ type Obligation struct {
 	ModelVars []ModelVar // variables worth reading back from a model
 	Cover   bool // cover obligation: query must be SAT
 	Assumed bool
+	PreQuery string // reachability guards: the state before the call (a call in dead code is not a vacuity)
+	Reach   bool // reachability guard: vacuous only when every query of this name is UNSAT
 }
 
 type ModelVar struct {
